@@ -2,16 +2,17 @@
   Decoding of oracle tables sent by the harness, and encoding of NEED answers.
 -/
 import Tsg.Sem.Error
+import Std.Data.HashMap
 
 namespace Driver
 
 structure OracleTable where
-  rx : List ((String × String × Nat) × Option RMatch) := []
-  rp : List ((String × String × String) × Option String) := []
+  rx : Std.HashMap (String × String × Nat) (Option RMatch) := {}
+  rp : Std.HashMap (String × String × String) (Option String) := {}
 
 def OracleTable.toOracle (t : OracleTable) : Oracle where
-  regexAt := fun p s i => t.rx.lookup (p, s, i)
-  replaceAll := fun p x r => t.rp.lookup (p, x, r)
+  regexAt := fun p s i => t.rx[(p, s, i)]?
+  replaceAll := fun p x r => t.rp[(p, x, r)]?
 
 def groupOfSexp : Sexp → Option (Option String)
   | .list [.atom "none"] => some none
@@ -30,11 +31,11 @@ def oracleEntry (t : OracleTable) : Sexp → Option OracleTable
   | .list [.atom "rx", .str p, .str s, i, res] => do
     let i ← i.nat?
     let r ← rmatchOfSexp res
-    pure { t with rx := ((p, s, i), r) :: t.rx }
+    pure { t with rx := t.rx.insertIfNew (p, s, i) r }
   | .list [.atom "rp", .str p, .str x, .str r, .list [.atom "invalid"]] =>
-    some { t with rp := ((p, x, r), none) :: t.rp }
+    some { t with rp := t.rp.insertIfNew (p, x, r) none }
   | .list [.atom "rp", .str p, .str x, .str r, .list [.atom "ok", .str out]] =>
-    some { t with rp := ((p, x, r), some out) :: t.rp }
+    some { t with rp := t.rp.insertIfNew (p, x, r) (some out) }
   | _ => none
 
 /-- `(oracle entry...)` -/
